@@ -145,6 +145,8 @@ def _case(draw):
             "lab_history": draw(st.sampled_from([None, None, "detection", "all", "fields", "fields-prop"])),
             # the aggregate object was asked for an excited initial state before the response is calculated
             "agg_history": draw(st.sampled_from([None, None, "impulsive_excitation", "thermal_excited_state"])),
+            # the response is calculated while other energy units are current for the caller
+            "calc_units": draw(st.sampled_from([None, None, None, "1/cm", "eV"])),
             "reaverage": draw(st.booleans())}
 
 
@@ -168,7 +170,7 @@ class ReadChanged(HarnessError):
 
 
 def response(qr, mols, J, pols, t2i, shape, mult=2, want_pathways=False, deph_common=None, read_order=None,
-             lab_history=None, want_lab=False, lab_route=None, agg_history=None):
+             lab_history=None, want_lab=False, lab_route=None, agg_history=None, calc_units=None):
     """(REPH, NONR, TOTAL [, pathways, aggregate]) of the mock calculator for the given system"""
     from quantarhei.spectroscopy.mocktwodcalculator import MockTwoDResponseCalculator
     n = len(mols)
@@ -220,7 +222,11 @@ def response(qr, mols, J, pols, t2i, shape, mult=2, want_pathways=False, deph_co
         lab.set_pulse_polarizations(pulse_polarizations=(pols[0], pols[1], pols[2]), detection_polarization=pols[3])
     pw = {}
     t2 = float(t2axis.data[t2i])
-    resp = calc.calculate_one_system(t2, agg, eUt, lab, pways=pw)
+    if calc_units:
+        with qr.energy_units(calc_units):
+            resp = calc.calculate_one_system(t2, agg, eUt, lab, pways=pw)
+    else:
+        resp = calc.calculate_one_system(t2, agg, eUt, lab, pways=pw)
     flags = {"R": qr.signal_REPH, "N": qr.signal_NONR, "T": qr.signal_TOTL}
     order = list(read_order or []) + ["R", "N", "T"]
     reads = {"R": [], "N": [], "T": []}
@@ -270,7 +276,8 @@ def check_case(case, ctx):
                                                           read_order=case.get("read_order"), lab_history=hist,
                                                           want_lab=True,
                                                           lab_route=case.get("lab_history"),
-                                                          agg_history=case.get("agg_history")), tag)
+                                                          agg_history=case.get("agg_history"),
+                                                          calc_units=case.get("calc_units")), tag)
     except ReadChanged as e:
         ctx.fail("reading-changes-the-response", tag, part=e.part, change=e.dev, order="".join(e.order))
         return
